@@ -99,3 +99,45 @@ def header (inputs outputs : List String) (inputValues outputValues : Bool) : Li
   (if inputValues then inputs else []) ++ (if outputValues then outputs else [])
 
 end Op.Fld
+
+namespace Op.Fld
+
+/-- what `FldExporter.write` uses of NumPy and of the engine (`E` = the engine with its state, `A` = arrays):
+    `np.atleast_2d`, `input_values.shape[1]`, the column `input_values[:, index]`, `engine.restart()`,
+    `variable.value = column` for the input variable of a name, `engine.process()`, `engine.input_values`,
+    `engine.output_values`, the empty block `[]`, `np.hstack` -/
+structure WriteOps (E A : Type) where
+  atleast2d : A → A
+  ncols : A → Nat
+  col : A → Nat → A
+  restart : E → E
+  setInput : E → String → A → E
+  process : E → E
+  inputBlock : E → A
+  outputBlock : E → A
+  emptyBlock : A
+  hstack : List A → A
+
+/-- `for index, variable in enumerate(engine.input_variables): variable.value = input_values[:, index]` -/
+def setInputs {E A : Type} (ops : WriteOps E A) (iv : A) : Nat → List String → E → E
+  | _, [], e => e
+  | i, v :: vs, e => setInputs ops iv (i + 1) vs (ops.setInput e v (ops.col iv i))
+
+/-- the blocks that are stacked side by side: the inputs and / or the outputs as selected, one empty block if neither -/
+def writeBlocks {E A : Type} (ops : WriteOps E A) (inputValues outputValues : Bool) (e : E) : List A :=
+  let v := (if inputValues then [ops.inputBlock e] else []) ++ (if outputValues then [ops.outputBlock e] else [])
+  if v.isEmpty then [ops.emptyBlock] else v
+
+/-- `FldExporter.write` as far as it is control flow: `none` = `ValueError` (fewer columns than input variables);
+    otherwise the engine after restart, assignment of the columns in order and processing, the array handed to
+    `np.savetxt`, and the header text (`""` when headers are off) -/
+def write {E A : Type} (ops : WriteOps E A) (inputs outputs : List String) (inputValues outputValues headers : Bool)
+    (sep : String) (e0 : E) (iv0 : A) : Option (E × A × String) :=
+  let iv := ops.atleast2d iv0
+  if ops.ncols iv < inputs.length then none
+  else
+    let e := ops.process (setInputs ops iv 0 inputs (ops.restart e0))
+    some (e, ops.hstack (writeBlocks ops inputValues outputValues e),
+      if headers then sep.intercalate (header inputs outputs inputValues outputValues) else "")
+
+end Op.Fld
